@@ -7,7 +7,7 @@
     [worker_pools s0] = the initial pools (they define which (resource, group, index) the worker owns:
     [in_universe]); [live_held live r g i] = fractions of index i (group g, resource r) held by the live
     allocations (a whole index counts FRACTIONS_PER_UNIT); [pools_free] = free fractions of that index. *)
-From HQ Require Import Base.Prelude Gen.Consts Alloc.Model Alloc.Spec Alloc.Lemmas Alloc.Group Alloc.Pool Alloc.Inv Alloc.System Alloc.Theorems Alloc.Mirror Alloc.MirrorSystem Alloc.Complete Alloc.CompleteTight Alloc.Examples.
+From HQ Require Import Base.Prelude Gen.Consts Alloc.Model Alloc.Spec Alloc.Lemmas Alloc.Group Alloc.Pool Alloc.Inv Alloc.System Alloc.Theorems Alloc.Mirror Alloc.MirrorSystem Alloc.Complete Alloc.CompleteTight Alloc.Admission Alloc.AllFree Alloc.CompleteAll Alloc.Examples.
 Open Scope N_scope.
 
 (** No individual resource is ever held beyond 100 %, and nothing but the worker's own indices is held. *)
@@ -125,11 +125,29 @@ Theorem C04_gate_transparent_coupled : forall (A : Type) p rid rq mask wit (k : 
   checked (claim_with_group_mask p rid rq mask wit) p rid rq k = (do x <- claim_with_group_mask p rid rq mask wit; k (fst x) (snd x)).
 Proof. exact @gate_transparent_coupled. Qed.
 
-(** clause of the property that is monitored on every run but not proved: `all` is granted only when
-    everything of the resource is free *)
-Definition C04_all_only_when_free_full : Prop := forall d s0 ops s rq w s' al,
-  init d = Ok s0 -> run s0 ops = Ok s -> step s (OAlloc rq w) = Ok (s', OutGrant al) ->
-  all_entries_free (a_pools (s_alloc s)) (worker_pools s0) rq = true.
+(** ... and `all` on a grouped resource passes the check when every index is free *)
+Theorem C04_gate_all : forall full gs rid wit p' ra,
+  gs_wf gs -> full = usize (PGroups full gs) * FPU ->
+  pool_claim (PGroups full gs) rid ReqAll wit = Ok (p', ra) -> claim_ok (PGroups full gs) p' rid ReqAll ra = true.
+Proof. exact claim_complete_all. Qed.
+
+(** `all` is granted only when everything of the resource is free: every index of an index / group
+    resource is whole and free in the state in which an `all` entry is granted ... *)
+Theorem C04_all_only_when_free : forall d s0 ops s rq w s' al e p0,
+  init d = Ok s0 -> Forall valid_op ops -> run s0 ops = Ok s ->
+  step s (OAlloc rq w) = Ok (s', OutGrant al) -> In e rq -> e_req e = ReqAll ->
+  nth_error (worker_pools s0) (nat_of (e_res e)) = Some p0 -> pool_is_sum p0 = false ->
+  forall g i, in_universe (worker_pools s0) (e_res e) g i = true ->
+              pools_free (a_pools (s_alloc s)) (e_res e) g i = FPU.
+Proof. exact all_only_when_free_groups. Qed.
+
+(** ... and nothing of a sum resource is taken. *)
+Theorem C04_all_only_when_free_sum : forall d s0 ops s rq w s' al e f x,
+  init d = Ok s0 -> Forall valid_op ops -> run s0 ops = Ok s ->
+  step s (OAlloc rq w) = Ok (s', OutGrant al) -> In e rq -> e_req e = ReqAll ->
+  nth_error (worker_pools s0) (nat_of (e_res e)) = Some (PSum f x) ->
+  nth_error (a_pools (s_alloc s)) (nat_of (e_res e)) = Some (PSum f f).
+Proof. exact all_only_when_free_sum. Qed.
 
 (** non-vacuity: a concrete reachable state with three live allocations satisfying the hypotheses, on which
     the executable monitors (the same predicates, as booleans) evaluate to true *)
@@ -157,3 +175,6 @@ Print Assumptions C04_release_concise_no_panic.
 Print Assumptions C04_claim_ok_sound.
 Print Assumptions C04_gate_transparent_direct.
 Print Assumptions C04_gate_transparent_coupled.
+Print Assumptions C04_gate_all.
+Print Assumptions C04_all_only_when_free.
+Print Assumptions C04_all_only_when_free_sum.
